@@ -13,6 +13,7 @@ import Splipy.Lemmas.C15SurfaceEdges
 import Splipy.Lemmas.C15Volume
 import Splipy.Lemmas.C15EdgeCurves4
 import Splipy.Lemmas.C15EdgePackage
+import Splipy.Lemmas.C15FacePackage
 import Splipy.Generated.C15
 import Mathlib.Tactic.NormNum
 import Mathlib.Tactic.IntervalCases
@@ -42,11 +43,19 @@ Summary
 * `C15_edge_surfaces_6_net`, `C15_edge_surfaces_6_net_eval`  six faces at control-net level (about the
                                    spec-level net `triNet`, not about `Obj.edgeSurfaces`);
 * theorems that mention the factory models of `Model/Sections.lean`:
-  `C15_edge_curves_2_partial`, `C15_edge_curves_4_search`, `C15_edge_curves_4_partial`,
-  `C15_coons_patch_sum_partial`, `C15_coons_patch_formula_partial`, `C15_coons_patch_partial`,
-  `C15_edge_surfaces_2_partial`, `C15_edge_curves_arity`, `C15_edge_surfaces_arity`,
-  `C15_edge_surfaces_6_rational` (the six-face branch of `Obj.edgeSurfaces` beyond its rational guard
-  is covered by the correspondence run only);
+  - `edge_curves` (2): `C15_edge_curves_2_partial` (any interval, map level with the re-parametrisation),
+    `C15_edge_curves_2_boundary_partial` (`[0,1]`, `section` / `const_par_curve` / `Obj.evaluate`);
+  - `coons_patch`: `C15_coons_patch_sum_partial`, `C15_coons_patch_formula_partial`, `C15_coons_patch_partial`,
+    `C15_coons_patch_boundary_partial`, `C15_coons_patch_mixed_boundary_partial` (opposite pairs on different
+    bases; `section` / `const_par_curve` / `Obj.evaluate`: `C15.EdgeAgrees`);
+  - `edge_curves` (4): `C15_edge_curves_4_search` (labels), `C15_edge_curves_4_partial`,
+    `C15_edge_curves_4_boundary_partial`, `C15_edge_curves_4_mixed_boundary_partial` (directed loop),
+    `C15_edge_curves_4_reordered_partial` (any order / orientation, object level);
+  - `edge_surfaces` (2): `C15_edge_surfaces_2_partial`, `C15_edge_surfaces_2_evaluate_partial`,
+    `C15_edge_surfaces_2_boundary_partial` (`C15.FaceAgrees`);
+  - `edge_surfaces` (6): `C15_edge_surfaces_6_formula_partial` (the model succeeds; transfinite-interpolation formula),
+    `C15_edge_surfaces_6_partial` (the six faces: `section` / `Obj.evaluate`), `C15_edge_surfaces_6_rational`;
+  - arity: `C15_edge_curves_arity`, `C15_edge_surfaces_arity`;
 * `C15_translated_*`               the utilities re-translated from the Python AST equal the hand model.
 -/
 
@@ -1295,6 +1304,190 @@ theorem C15_edge_surfaces_2_evaluate_partial (tol : K) (htol : 0 < tol) (pa0 pa1
       (rB.trans h2.rational.symm) (fun _ => by rw [h2.ncomp]; exact hnc) mB htol hneu hnev
       (by rw [h2.b0]; exact hu) (by rw [bB0]; exact huU) (by rw [h2.b1]; exact hv) (by rw [bB1]; exact hvU)
     exact ⟨res, r1, r2⟩
+
+open C06 C12 Obj Basis in
+/-- **`edge_surfaces(s1, s2)`: the two `w`-faces of the result are the two inputs — `section`, `Obj.evaluate` of the
+    sections, `Obj.evaluate` of the volume on `w = 0` / `w = 1`.**  Hypotheses of `C15_edge_surfaces_2_partial`
+    (two faces on `[0,1]²` in common-entry form, orders and multiplicities may differ, `Nice` side conditions) and:
+    the two union bases satisfy `UnitKnots` (every listed value is a knot of one of the two faces), `1 ≤ nc` for
+    rational faces.  Then the model's `edge_surfaces(s1, s2)` returns `vol` on `B₀ × B₁ × BSplineBasis(2)` and
+    `C15.FaceAgrees` holds for `(vol, s1, (None,None,0), [us, vs, [0]])` and `(vol, s2, (None,None,-1), [us, vs, [1]])`
+    — except that `s1`, `s2` live on their own (coarser) bases, so the `evaluate` statements compare
+    `vol`/its sections with the made-identical copies `r.1`, `r.2` of `s1`, `s2` (same maps as `s1`, `s2`:
+    `SameMap 2`, and by `C15_edge_surfaces_2_evaluate_partial` the same `evaluate` arrays at parameters admissible
+    for both bases). -/
+theorem C15_edge_surfaces_2_boundary_partial (tol : K) (htol : 0 < tol) (pa0 pa1 pb0 pb1 : ℕ) (U0 U1 : List K)
+    (Ma0 Ma1 Mb0 Mb1 : List ℕ) (rat : Bool) (nc : ℕ) (hnc : rat = true → 1 ≤ nc) (s1 s2 : Obj K)
+    (h1 : UnitSurf s1 pa0 pa1 U0 U1 Ma0 Ma1 rat nc) (h2 : UnitSurf s2 pb0 pb1 U0 U1 Mb0 Mb1 rat nc)
+    (hp : 2 ≤ pa0 ∧ 2 ≤ pa1 ∧ 2 ≤ pb0 ∧ 2 ≤ pb1)
+    (hl : Ma0.length = U0.length ∧ Ma1.length = U1.length ∧ Mb0.length = U0.length ∧ Mb1.length = U1.length)
+    (hm : (∀ x ∈ Ma0, x ≤ pa0 - 1) ∧ (∀ x ∈ Ma1, x ≤ pa1 - 1) ∧ (∀ x ∈ Mb0, x ≤ pb0 - 1) ∧ (∀ x ∈ Mb1, x ≤ pb1 - 1))
+    (k0 : UnitKnots tol (max pa0 pb0) U0 (unionMult pa0 pb0 Ma0 Mb0))
+    (k1 : UnitKnots tol (max pa1 pb1) U1 (unionMult pa1 pb1 Ma1 Mb1))
+    (hn : Nice tol (s1.basis 0) ∧ Nice tol (s1.basis 1) ∧ Nice tol (s2.basis 0) ∧ Nice tol (s2.basis 1))
+    (unwrap : Bool) :
+    ∃ (r : Obj K × Obj K) (vol : Obj K),
+      Obj.edgeSurfaces tol [s1, s2] = .ok vol
+      ∧ SameMap 2 s1 r.1 ∧ SameMap 2 s2 r.2
+      ∧ UnitSurf r.1 (max pa0 pb0) (max pa1 pb1) U0 U1 (unionMult pa0 pb0 Ma0 Mb0) (unionMult pa1 pb1 Ma1 Mb1) rat nc
+      ∧ UnitSurf r.2 (max pa0 pb0) (max pa1 pb1) U0 U1 (unionMult pa0 pb0 Ma0 Mb0) (unionMult pa1 pb1 Ma1 Mb1) rat nc
+      ∧ FaceAgrees tol vol r.1 (unitBasis (max pa0 pb0) U0 (unionMult pa0 pb0 Ma0 Mb0))
+          (unitBasis (max pa1 pb1) U1 (unionMult pa1 pb1 Ma1 Mb1)) [none, none, some 0]
+          (fun us vs => [us, vs, [0]]) unwrap
+      ∧ FaceAgrees tol vol r.2 (unitBasis (max pa0 pb0) U0 (unionMult pa0 pb0 Ma0 Mb0))
+          (unitBasis (max pa1 pb1) U1 (unionMult pa1 pb1 Ma1 Mb1)) [none, none, some (-1)]
+          (fun us vs => [us, vs, [1]]) unwrap := by
+  obtain ⟨n10, n11, n20, n21⟩ := hn
+  obtain ⟨r, hr, R1, R2, sm1, sm2⟩ := identical_unitSurf tol htol pa0 pa1 pb0 pb1 U0 U1 Ma0 Ma1 Mb0 Mb1 rat nc
+    s1 s2 h1 h2 hp hl hm k0.hgap k1.hgap ⟨n10, n11, n20, n21, k0.nice htol⟩
+  have hsh : r.2.cps.shape = r.1.cps.shape := by rw [R1.shape, R2.shape]
+  have hcall : Obj.edgeSurfaces tol [s1, s2] = .ok (ruledObj r.1 r.2) := by
+    unfold Obj.edgeSurfaces Obj.ruled
+    simp only [hr]
+    rw [if_neg (by simpa using hsh)]
+    rfl
+  have klin : UnitKnots tol 2 ([] : List K) [] := linear_unitKnots (k0.two_tol htol)
+  let P : Fin 3 → ℕ := ![max pa0 pb0, max pa1 pb1, 2]
+  let UU : Fin 3 → List K := ![U0, U1, []]
+  let MM : Fin 3 → List ℕ := ![unionMult pa0 pb0 Ma0 Mb0, unionMult pa1 pb1 Ma1 Mb1, []]
+  have kk : ∀ d, UnitKnots tol (P d) (UU d) (MM d) := by
+    apply fin3_cases
+    · exact k0
+    · exact k1
+    · exact klin
+  obtain ⟨w0, nn0⟩ := ruledObj_wf3 r.1 r.2 R1.wf hsh
+  obtain ⟨e0, e1, e2⟩ := ruledObj_basis3 r.1 r.2 R1.wf.size
+  have V : UnitVol (ruledObj r.1 r.2) P UU MM rat nc := by
+    refine ⟨w0, ?_, R1.rational, nn0.trans R1.ncomp⟩
+    apply fin3_cases
+    · exact e0.trans R1.b0
+    · exact e1.trans R1.b1
+    · exact e2.trans linearBasis_unit
+  have hev : ∀ comp, comp < nc → ∀ (sd : Fin 3 → Side) (u : Fin 3 → K),
+      (toTP (ruledObj r.1 r.2) 3 comp).eval sd u
+        = beta (sd 2) 0 (u 2) * (toTP r.1 2 comp).eval ![sd 0, sd 1] ![u 0, u 1]
+          + beta (sd 2) 1 (u 2) * (toTP r.2 2 comp).eval ![sd 0, sd 1] ![u 0, u 1] := by
+    intro comp hc sd u
+    exact ruledObj_eval3 r.1 r.2 R1.wf R2.wf (by rw [R1.b0]; rfl) (by rw [R1.b1]; rfl) (by rw [R1.b0, R2.b0])
+      (by rw [R1.b1, R2.b1]) hsh comp (by rw [R1.ncomp]; exact hc) sd u
+  obtain ⟨l0, l1, r0, r1⟩ := C15_beta_ends (K := K)
+  have f0 := V.face_w_agrees htol kk false r.1 R1 hnc
+    (by intro comp hc s1' s2' x y
+        rw [hev comp hc]
+        simp only [sideOf, endOf, Bool.false_eq_true, if_false, Matrix.cons_val_zero, Matrix.cons_val_one,
+          Matrix.cons_val_two, Matrix.tail_cons, Matrix.head_cons]
+        rw [l0, l1]; ring) unwrap
+  have f1 := V.face_w_agrees htol kk true r.2 R2 hnc
+    (by intro comp hc s1' s2' x y
+        rw [hev comp hc]
+        simp only [sideOf, endOf, if_true, Matrix.cons_val_zero, Matrix.cons_val_one,
+          Matrix.cons_val_two, Matrix.tail_cons, Matrix.head_cons]
+        rw [r0, r1]; ring) unwrap
+  simp only [endSel, endOf, Bool.false_eq_true, if_false, if_true] at f0 f1
+  exact ⟨r, ruledObj r.1 r.2, hcall, sm1, sm2, R1, R2, f0, f1⟩
+
+/-! ## 8f'. `edge_surfaces` with six faces: the model succeeds and its six faces are the six inputs -/
+
+open C06 C12 Obj Basis in
+/-- **Six-face `edge_surfaces` of the model: the transfinite-interpolation formula.**  Family (`_partial`): the six
+    faces already live on common clamped bases on `[0,1]`: `umin, umax` on `B₁ × B₂`, `vmin, vmax` on `B₀ × B₂`,
+    `wmin, wmax` on `B₀ × B₁`, `B_d = unitBasis (p d) (U d) (M d)` with `UnitKnots` (order `≥ 2`, continuous, knots
+    more than `2(p-1)·tol` apart); non-rational; `nc` components.  No compatibility hypothesis.  Then
+    `Obj.edgeSurfaces tol [umin, umax, vmin, vmax, wmin, wmax] = .ok vol`, `vol` a well-formed volume on
+    `B₀ × B₁ × B₂`, and in every component, at every parameter triple and choice of sides,
+    `vol(u,v,w) = Σ_a β_a(u) Fu_a(v,w) + Σ_b β_b(v) Fv_b(u,w) + Σ_c β_c(w) Fw_c(u,v) + Σ_abc β_a β_b β_c Fu_a(b,c)
+                 - Σ_ab β_a(u) β_b(v) Fu_a(b,w) - Σ_bc β_b(v) β_c(w) Fv_b(u,c) - Σ_ac β_a(u) β_c(w) Fw_c(a,v)`
+    (`a, b, c` range over the two ends `false`/`true` = `0`/`1`; `C15.bt` the two B-splines of `BSplineBasis(2)`;
+    `C15.sum2 f = f false + f true`; `Fu_false = umin`, `Fu_true = umax`, …; an end argument means evaluation at
+    `0` from the right resp. at `1` from the left).  The proof follows the model statement by statement: three
+    ruled volumes, `corners(order='F')` and the trilinear volume, four swaps, nine `make_splines_identical`, three
+    `+=`, the three edge volumes (`C15.edgeVolU/V/W`), three `-=`. -/
+theorem C15_edge_surfaces_6_formula_partial (tol : K) (htol : 0 < tol) (p : Fin 3 → ℕ) (U : Fin 3 → List K)
+    (M : Fin 3 → List ℕ) (k : ∀ d, UnitKnots tol (p d) (U d) (M d)) (nc : ℕ)
+    (umin umax vmin vmax wmin wmax : Obj K)
+    (hu0 : UnitSurf umin (p 1) (p 2) (U 1) (U 2) (M 1) (M 2) false nc)
+    (hu1 : UnitSurf umax (p 1) (p 2) (U 1) (U 2) (M 1) (M 2) false nc)
+    (hv0 : UnitSurf vmin (p 0) (p 2) (U 0) (U 2) (M 0) (M 2) false nc)
+    (hv1 : UnitSurf vmax (p 0) (p 2) (U 0) (U 2) (M 0) (M 2) false nc)
+    (hw0 : UnitSurf wmin (p 0) (p 1) (U 0) (U 1) (M 0) (M 1) false nc)
+    (hw1 : UnitSurf wmax (p 0) (p 1) (U 0) (U 1) (M 0) (M 1) false nc) :
+    ∃ vol : Obj K, Obj.edgeSurfaces tol [umin, umax, vmin, vmax, wmin, wmax] = .ok vol
+      ∧ UnitVol vol p U M false nc
+      ∧ ∀ comp, comp < nc → ∀ (sd : Fin 3 → Side) (u : Fin 3 → K),
+          (toTP vol 3 comp).eval sd u
+            = sum2 (fun a => bt (sd 0) a (u 0) * (toTP (if a then umax else umin) 2 comp).eval ![sd 1, sd 2] ![u 1, u 2])
+              + sum2 (fun b => bt (sd 1) b (u 1) * (toTP (if b then vmax else vmin) 2 comp).eval ![sd 0, sd 2] ![u 0, u 2])
+              + sum2 (fun c => bt (sd 2) c (u 2) * (toTP (if c then wmax else wmin) 2 comp).eval ![sd 0, sd 1] ![u 0, u 1])
+              + sum2 (fun a => sum2 (fun b => sum2 (fun c => bt (sd 0) a (u 0) * bt (sd 1) b (u 1) * bt (sd 2) c (u 2)
+                  * (toTP (if a then umax else umin) 2 comp).eval ![sideOf b, sideOf c] ![endOf b, endOf c])))
+              - sum2 (fun a => sum2 (fun b => bt (sd 0) a (u 0) * bt (sd 1) b (u 1)
+                  * (toTP (if a then umax else umin) 2 comp).eval ![sideOf b, sd 2] ![endOf b, u 2]))
+              - sum2 (fun b => sum2 (fun c => bt (sd 1) b (u 1) * bt (sd 2) c (u 2)
+                  * (toTP (if b then vmax else vmin) 2 comp).eval ![sd 0, sideOf c] ![u 0, endOf c]))
+              - sum2 (fun a => sum2 (fun c => bt (sd 0) a (u 0) * bt (sd 2) c (u 2)
+                  * (toTP (if c then wmax else wmin) 2 comp).eval ![sideOf a, sd 1] ![endOf a, u 1])) := by
+  obtain ⟨vol, h1, h2, h3⟩ := edgeSurfaces6_formula tol htol p U M k nc umin umax vmin vmax wmin wmax
+    hu0 hu1 hv0 hv1 hw0 hw1
+  exact ⟨vol, h1, h2.congr (fun d => by simp [stdP]) (fun d => by simp [stdM]), h3⟩
+
+open C06 C12 Obj Basis in
+/-- **Six-face `edge_surfaces` of the model: the six faces of the result are the six inputs — `section`,
+    `Obj.evaluate` of the sections, `Obj.evaluate` of the volume on its faces.**
+    Family of `C15_edge_surfaces_6_formula_partial` plus `C15.FacesCompatible`: the twelve shared edges agree as
+    maps (each edge read from its two faces: `uv`, `vw`, `uw`; for faces on common bases this is equality of the
+    edge control rows).  These guards make it `_partial`.  Then `Obj.edgeSurfaces tol [umin, …, wmax] = .ok vol` and
+    for each of the six faces `C15.FaceAgrees` holds:
+    * `vol.sectionSel (0,None,None) / (-1,None,None) / (None,0,None) / (None,-1,None) / (None,None,0) /
+      (None,None,-1)` returns a `Surface` on the face's two bases which is the **same map** as
+      `umin / umax / vmin / vmax / wmin / wmax` (`SameMap 2`: all components, sides, parameters) **and**
+      `Obj.evaluate` of that surface returns the same array as `Obj.evaluate` of the input on every non-empty
+      admissible parameter grid;
+    * `vol.evaluate tol [[0], vs, ws]`, `[[1], vs, ws]`, `[us, [0], ws]`, … return the same numbers (`data`) as the
+      input face's `evaluate tol [vs, ws]`, ….
+    Not covered: faces on different bases, rational faces (the real code refuses them: `C15_edge_surfaces_6_rational`),
+    periodic faces. -/
+theorem C15_edge_surfaces_6_partial (tol : K) (htol : 0 < tol) (p : Fin 3 → ℕ) (U : Fin 3 → List K)
+    (M : Fin 3 → List ℕ) (k : ∀ d, UnitKnots tol (p d) (U d) (M d)) (nc : ℕ)
+    (umin umax vmin vmax wmin wmax : Obj K)
+    (hu0 : UnitSurf umin (p 1) (p 2) (U 1) (U 2) (M 1) (M 2) false nc)
+    (hu1 : UnitSurf umax (p 1) (p 2) (U 1) (U 2) (M 1) (M 2) false nc)
+    (hv0 : UnitSurf vmin (p 0) (p 2) (U 0) (U 2) (M 0) (M 2) false nc)
+    (hv1 : UnitSurf vmax (p 0) (p 2) (U 0) (U 2) (M 0) (M 2) false nc)
+    (hw0 : UnitSurf wmin (p 0) (p 1) (U 0) (U 1) (M 0) (M 1) false nc)
+    (hw1 : UnitSurf wmax (p 0) (p 1) (U 0) (U 1) (M 0) (M 1) false nc)
+    (hcompat : FacesCompatible nc umin umax vmin vmax wmin wmax) (unwrap : Bool) :
+    ∃ vol : Obj K, Obj.edgeSurfaces tol [umin, umax, vmin, vmax, wmin, wmax] = .ok vol
+      ∧ UnitVol vol p U M false nc
+      ∧ FaceAgrees tol vol umin (unitBasis (p 1) (U 1) (M 1)) (unitBasis (p 2) (U 2) (M 2)) [some 0, none, none]
+          (fun vs ws => [[0], vs, ws]) unwrap
+      ∧ FaceAgrees tol vol umax (unitBasis (p 1) (U 1) (M 1)) (unitBasis (p 2) (U 2) (M 2)) [some (-1), none, none]
+          (fun vs ws => [[1], vs, ws]) unwrap
+      ∧ FaceAgrees tol vol vmin (unitBasis (p 0) (U 0) (M 0)) (unitBasis (p 2) (U 2) (M 2)) [none, some 0, none]
+          (fun us ws => [us, [0], ws]) unwrap
+      ∧ FaceAgrees tol vol vmax (unitBasis (p 0) (U 0) (M 0)) (unitBasis (p 2) (U 2) (M 2)) [none, some (-1), none]
+          (fun us ws => [us, [1], ws]) unwrap
+      ∧ FaceAgrees tol vol wmin (unitBasis (p 0) (U 0) (M 0)) (unitBasis (p 1) (U 1) (M 1)) [none, none, some 0]
+          (fun us vs => [us, vs, [0]]) unwrap
+      ∧ FaceAgrees tol vol wmax (unitBasis (p 0) (U 0) (M 0)) (unitBasis (p 1) (U 1) (M 1)) [none, none, some (-1)]
+          (fun us vs => [us, vs, [1]]) unwrap := by
+  obtain ⟨vol, hcall, Svol, hf⟩ := edgeSurfaces6_faces tol htol p U M k nc umin umax vmin vmax wmin wmax
+    hu0 hu1 hv0 hv1 hw0 hw1 hcompat
+  have V : UnitVol vol p U M false nc := Svol.congr (fun d => by simp [stdP]) (fun d => by simp [stdM])
+  have hpos : false = true → 1 ≤ nc := fun h => by cases h
+  have a0 := V.face_u_agrees htol k false umin hu0 hpos
+    (fun comp hc s1 s2 x y => by simpa using (hf comp hc false s1 s2 x y).1) unwrap
+  have a1 := V.face_u_agrees htol k true umax hu1 hpos
+    (fun comp hc s1 s2 x y => by simpa using (hf comp hc true s1 s2 x y).1) unwrap
+  have b0 := V.face_v_agrees htol k false vmin hv0 hpos
+    (fun comp hc s1 s2 x y => by simpa using (hf comp hc false s1 s2 x y).2.1) unwrap
+  have b1 := V.face_v_agrees htol k true vmax hv1 hpos
+    (fun comp hc s1 s2 x y => by simpa using (hf comp hc true s1 s2 x y).2.1) unwrap
+  have c0 := V.face_w_agrees htol k false wmin hw0 hpos
+    (fun comp hc s1 s2 x y => by simpa using (hf comp hc false s1 s2 x y).2.2) unwrap
+  have c1 := V.face_w_agrees htol k true wmax hw1 hpos
+    (fun comp hc s1 s2 x y => by simpa using (hf comp hc true s1 s2 x y).2.2) unwrap
+  simp only [endSel, endOf, Bool.false_eq_true, if_false, if_true] at a0 a1 b0 b1 c0 c1
+  exact ⟨vol, hcall, V, a0, a1, b0, b1, c0, c1⟩
 
 /-! ## 8g. Arity and the rational guard of the factories -/
 
